@@ -14,7 +14,9 @@ for mp in sorted(glob.glob(os.path.join(V, "seeded", "*", "meta.json"))):
     txt = txt.replace("|", "\\|")
     for key, c in sorted(m.get("checks", {}).items()):
         pid, tier = key.split("/")
-        if c.get("detected") and c.get("with_failing_input"):
+        if m.get("expected") == "no violation":
+            res = "no alarm, exit 0 (correct: the property holds)" if c.get("rc") == 0 else "**false alarm** (rc=%s)" % c.get("rc")
+        elif c.get("detected") and c.get("with_failing_input"):
             res = "VIOLATION with failing input"
         elif c.get("detected"):
             res = "VIOLATION, no-failing-input-found (tie theorem only)"
